@@ -2,7 +2,9 @@ package main
 
 import (
 	"fmt"
+	"os"
 	"runtime"
+	"time"
 	"go/constant"
 	"go/token"
 	"go/types"
@@ -220,11 +222,15 @@ func (x *Exec) check(extra ...*Term) Result {
 	for _, e := range extra {
 		x.sol.Assert(e)
 	}
+	t0 := time.Now()
 	r := x.sol.Check()
 	x.res.Queries++
 	if r == Unknown && x.cfg.FallbackMs > 0 {
 		r, _, _ = x.sol.Fallback(x.cfg.FallbackMs, nil)
 		x.res.FallbackQ++
+	}
+	if d := time.Since(t0); x.cfg.Verbose && d > 2*time.Second {
+		fmt.Fprintf(os.Stderr, "slow query %.1fs -> %s at %s\n", d.Seconds(), r, x.where())
 	}
 	x.sol.Pop()
 	if r == Unknown {
